@@ -25,6 +25,7 @@ long kv_live_bytes(void);
 long kv_total_blocks(void);
 long kv_peak_blocks(void);
 long kv_unknown_frees(void);
+long kv_pool_hits(void);
 void kv_alloc_fill(int on, int byte);
 
 #define NSLOT 16
@@ -91,6 +92,8 @@ static void *parr_worker(void *a_)
         a->rc = kalign(a->v, a->l, a->n, a->nt, a->ty, -1.0f, -1.0f, -1.0f, &a->aln, &a->al);
         return NULL;
 }
+
+static char **pre_v[64]; static int *pre_l[64]; static int pre_n[64];
 
 static int read_lines(const char *file, char ***out, int **lens)
 {
@@ -188,6 +191,28 @@ int main(int argc, char **argv)
                         printf("]}\n");
                         for (int i = 0; i < n; i++) free(v[i]);
                         free(v); free(l);
+                } else if (!strcmp(op, "preload")) {
+                        /* the application holds its input arrays before it starts calling the library (no driver allocation between two calls) */
+                        int k = atoi(tok(&p)) & 63; char *f = tok(&p);
+                        pre_n[k] = read_lines(f, &pre_v[k], &pre_l[k]);
+                        printf("{\"op\":\"preload\",\"n\":%d,\"numseq\":%d}\n", opn, pre_n[k]);
+                } else if (!strcmp(op, "arrp")) {
+                        int k = atoi(tok(&p)) & 63; int nt = atoi(tok(&p)); int ty = atoi(tok(&p));
+                        float gpo = parsef(tok(&p)), gpe = parsef(tok(&p)), tgpe = parsef(tok(&p));
+                        char **aln = NULL; int al = 0; int n = pre_n[k];
+                        int rc = n > 0 ? kalign(pre_v[k], pre_l[k], n, nt, ty, gpo, gpe, tgpe, &aln, &al) : -1;
+                        printf("{\"op\":\"arr\",\"n\":%d,\"rc\":%d,\"numseq\":%d,\"alnlen\":%d,\"rows\":[", opn, rc, n, al);
+                        if (rc == 0 && aln) {
+                                for (int i = 0; i < n; i++) { if (i) putchar(','); jstr(aln[i], -1); free(aln[i]); }
+                                free(aln);
+                        }
+                        printf("]}\n");
+                } else if (!strcmp(op, "unload")) {
+                        int k = atoi(tok(&p)) & 63;
+                        for (int i = 0; i < pre_n[k]; i++) free(pre_v[k][i]);
+                        if (pre_n[k] >= 0) { free(pre_v[k]); free(pre_l[k]); }
+                        pre_v[k] = NULL; pre_l[k] = NULL; pre_n[k] = -1;
+                        printf("{\"op\":\"unload\",\"n\":%d}\n", opn);
                 } else if (!strcmp(op, "parr")) {
                         /* P application threads call kalign() at the same time on the same (read-only) input arrays */
                         char *f = tok(&p); int P = atoi(tok(&p)); int nt = atoi(tok(&p)); int ty = atoi(tok(&p));
@@ -254,8 +279,8 @@ int main(int argc, char **argv)
                         if (a) { for (int i = 0; i < 128; i++) printf("%s%d", i ? "," : "", a->to_internal[i]); free(a); }
                         printf("]}\n");
                 } else if (!strcmp(op, "live")) {
-                        printf("{\"op\":\"live\",\"n\":%d,\"blocks\":%ld,\"bytes\":%ld,\"total\":%ld,\"peak\":%ld,\"unknown_frees\":%ld}\n",
-                               opn, kv_live_blocks(), kv_live_bytes(), kv_total_blocks(), kv_peak_blocks(), kv_unknown_frees());
+                        printf("{\"op\":\"live\",\"n\":%d,\"blocks\":%ld,\"bytes\":%ld,\"total\":%ld,\"peak\":%ld,\"unknown_frees\":%ld,\"pool_hits\":%ld}\n",
+                               opn, kv_live_blocks(), kv_live_bytes(), kv_total_blocks(), kv_peak_blocks(), kv_unknown_frees(), kv_pool_hits());
                 } else if (!strcmp(op, "fill")) {
                         int on = atoi(tok(&p)); int b = atoi(tok(&p));
                         kv_alloc_fill(on, b);
